@@ -20,7 +20,7 @@ Definition pif : R := 13176795 / 4194304.          (* float(pi) *)
 Definition c12 : R := 230053 / 262144.             (* cos_one_over_two<float>() *)
 Definition A_ : R := - cos pif. Definition B_ : R := sin pif.
 Lemma float_pi_is_close : 0 <= 1 - A_ <= 1 / 2 ^ 40 /\ Rabs B_ <= 1 / 2 ^ 22.
-Proof. unfold A_, B_, pif. split; [split|]; interval. Qed.
+Proof. unfold A_, B_, pif. split; [split|]; interval with (i_prec 80). Qed.
 Definition s_ (env : renv) : R := sqrt (1 - qw env * qw env).
 Definition aa_ok (t : tree) : Prop := forall env, qx env * qx env + qy env * qy env + qz env * qz env + qw env * qw env = 1 ->
   evalT env t = Some (true,
